@@ -551,6 +551,14 @@ func GenC06(seed uint64, run int) *Trace {
 			t.Ops = append(t.Ops, Op{Kind: "put", Blks: []BlkSpec{{Kind: "raw", Seed: uint64(100 + i), Size: r.Range(0, 3)}}})
 		}
 	}
+	if r.Chance(1, 15) {
+		// a block of 64 KiB and more (where writers start to treat sections differently: preallocation,
+		// chunked copies), possibly followed by a small one
+		t.Ops = append(t.Ops, Op{Kind: "put", Blks: []BlkSpec{{Kind: Pick(r, []string{"raw", "v0"}), Seed: 70, Size: Pick(r, []int{65536, 70000, 102400})}}})
+		if r.Bool() {
+			put()
+		}
+	}
 	if r.Chance(4, 5) {
 		t.Ops = append(t.Ops, Op{Kind: "finalize"})
 	}
